@@ -26,6 +26,20 @@ fixed("C02", "e9964b6", "'1\\.' at the start of a soft-broken line lost its esca
 fixed("C01", "08aa676", "a list that is the first child of a list item ('- - a' / '  - b') was re-nested: every inner item got the outer marker again", "block[nested-direct]/shape")
 fixed("C02", "521f64b", "list_spacing=loose emitted a separator before a list that opens a list item: a leading blank (or '>') line, one more on every run", "para[<list-marker>@first]/idempotent:blank-lines")
 
+fixed("C04", "7c03479", "ellipsis conversion rewrote '...' inside template tags ({% f k=\"v...\" %} -> k=\"v …\") (also C09)", "verb[tag-quotes]/verbatim:tag")
+fixed("C04", "1af9d80", "link titles: inline title ending in a quoted word lost its last character; raw reference-definition titles were double-escaped / kept single quotes as text", "verbblock[refdef-quotes]/verbatim:link")
+fixed("C02", "bf0c65e", "reference links whose definition writes the title in single quotes or parentheses flipped between inline and reference form on successive runs", "verbblock[refdef-sq-title]/idempotent")
+fixed("C04", "22ff3ad", "code block lines were split at \\x0b \\x0c \\x1c-\\x1e \\x85 U+2028/9 (str.splitlines)", "verbblock[code-formfeed]/verbatim:codeblock")
+fixed("C07", "86459c9", "frontmatter lines were split at form feeds / Unicode line separators (str.splitlines): block not passed through character for character", "fm[formfeed]/frontmatter:exact")
+fixed("C04", "21cc215", "link/image destination with spaces or unbalanced parentheses lost its angle brackets: [x](<a b> 'T') -> [x](a b \"T\") (no longer a link)", "verb[link-dest-angle]/verbatim:link")
+fixed("C08", "afe82d7", "with smart quotes on, '...' directly after a closing quote was no longer converted to the ellipsis (curly closing quotes missing from the ellipsis prefix class)", "verbblock[codeblock-quotes]/smartquotes:same-length")
+fixed("C01", "4136501", "'** *' / '__ _' (thematic breaks) at a wrapped line start: found by the z3 escaper-completeness query", "escaper[rule]/shape")
+fixed("C01", "8e8037e", "table delimiter rows ('-|-', ':-:|-', '| -|') at a wrapped line start under a line with the same number of cells became a GFM table: found by the z3 escaper-completeness query", "escaper[table-delim]/shape")
+fixed("C01", "4898454", "a heading inside a block quote ended with a bare empty line and split the quote in two ('> ## h' / '>' / '> text'); list items after an item holding a heading inside a quote were lost from the list", "list[PH|P]/list-spacing:structure")
+fixed("C03", "4d2f64e", "the second of two adjacent quoted phrases kept straight quotes unless two or more spaces separated them (QUOTE_PATTERN consumed the separator): layout dependent", "verb[quoted-code]/relayout:content")
+fixed("C10", "7d63d2a", "no blank line before the next list item after an item ending in a thematic break (loose spacing)", "list[PR|P]/list-spacing:loose-blank-line-before-every-item")
+fixed("C17", "fa95314", "directory traversal followed symlinks to files (targets outside the tree or inside excluded directories were listed); glob arguments skipped excluded directories and .flowmarkignore", "dir/unwanted[reached-via-file-link]")
+
 # ---------------------------------------------------------------- known: C05
 MERGE = ("semantic mode merges a short last line with the next sentence testing len(last)+1+len(first) <= width without the line's indent and lays the sentence out from indent+len(last) "
          "without the joining space: the merged line is up to indent+1 columns too long. reformat_text('> a b cccccccccccccc. d e', width=24, semantic=True) -> 25-column line. "
